@@ -165,3 +165,43 @@ Proof.
   { unfold zlen. destruct l; [congruence|]. cbn [length]. unfold Qeq, inject_Z; cbn. lia. }
   unfold Zminus. rewrite inject_Z_plus, inject_Z_opp, !inject_Z_mult. field. exact Hn.
 Qed.
+
+(* ---------------- the interval grows with the level ----------------
+   levels c1/d <= c2/d in [0, 100]: the lower bound does not increase, the upper bound does not decrease, the width
+   does not decrease (so no level can be silently replaced by a larger one without being visible in the width) *)
+Theorem ci_monotone_in_level l c1 c2 d : l <> [] -> (0 <= c1 <= c2)%Z -> (c2 <= 100 * Z.pos d)%Z ->
+  ci_lo l c2 d <= ci_lo l c1 d /\ ci_hi l c1 d <= ci_hi l c2 d /\ ci_width l c1 d <= ci_width l c2 d.
+Proof.
+  intros Hl H12 H100.
+  assert (L : ci_lo l c2 d <= ci_lo l c1 d) by (unfold ci_lo; apply percentile_monotone; [assumption | lia | lia]).
+  assert (U : ci_hi l c1 d <= ci_hi l c2 d) by (unfold ci_hi; apply percentile_monotone; [assumption | lia | lia]).
+  split; [exact L | split; [exact U|]]. unfold ci_width.
+  apply Qplus_le_compat; [exact U | apply Qopp_le_compat; exact L].
+Qed.
+
+(* level 0: both bounds are the median; level 100: minimum and maximum of the chain *)
+Theorem ci_level_0 l d : ci_lo l 0 d == median l /\ ci_hi l 0 d == median l.
+Proof.
+  unfold ci_lo, ci_hi, median. rewrite Z.sub_0_r, Z.add_0_r.
+  assert (E : percentile l (100 * Z.pos d) (2 * d) == percentile l 50 1).
+  { rewrite <- (percentile_rescale l 50 1 (2 * d)). replace (1 * (2 * d))%positive with (2 * d)%positive by lia.
+    replace (50 * Z.pos (2 * d))%Z with (100 * Z.pos d)%Z by lia. reflexivity. }
+  split; exact E.
+Qed.
+
+Theorem ci_level_100 l : l <> [] ->
+  ci_lo l 100 1 == inject_Z (znth (isort l) 0) /\ ci_hi l 100 1 == inject_Z (znth (isort l) (zlen l - 1)).
+Proof.
+  intros Hl. unfold ci_lo, ci_hi. split.
+  - replace (100 * Z.pos 1 - 100)%Z with 0%Z by lia. apply percentile_0. exact Hl.
+  - apply percentile_grid.
+    + unfold zlen. destruct l; [congruence | cbn [length]; lia].
+    + lia.
+Qed.
+
+(* compute_ci refuses exactly the levels of absolute value above 100 *)
+Theorem ci_opt_defined l cn cd : (exists r, ci_opt l cn cd = Some r) <-> (- (100 * Z.pos cd) <= cn <= 100 * Z.pos cd)%Z.
+Proof.
+  unfold ci_opt. destruct (Z.leb_spec (Z.abs cn) (100 * Z.pos cd)); split; intros H'; try lia; eauto.
+  destruct H' as [r [=]].
+Qed.
